@@ -60,8 +60,8 @@ def run(ctx, scale=1):
     # ---- documented differences, every content
     cs = contents(rng, (60 if ctx.quick else 1500) * scale)
     for c in cs:
-        if "\\" in c or "." in c or "\n" in c:
-            continue
+        if "\\" in c or "." in c or "\n" in c or c == "*":
+            continue        # decoding of these contents is C06/C07's subject (a quoted * is read as the star: C07 finding)
         forms = {
             "dq": '"' + c.replace('"', '""') + '"',
             "bt": "`" + c.replace("`", "``") + "`",
